@@ -13,13 +13,14 @@ def apply_case(inp):
     its = rsmi_to_its(inp["template"])
     tpl = get_rc(its) if inp["centre"] else its
     mode = reactlib.rule_mode(get_rc(its))
-    if mode == "implicit" and inp.get("render_h"):
-        mode = "rendered"        # library default: implicit-H template, hydrogens that move are rendered as atoms
+    if mode == "explicit" and inp.get("implicit_temp_on_explicit"):
+        mode = "implicit-x"      # explicit-H template used with implicit_temp=True, explicit_h=False
     try:
         R = reactlib.make_reactor(inp["substrate"], tpl, invert=inp["invert"], strategy=inp["strategy"], mode=mode)
-        case = reactlib.result_case(R, mode)
+        _ = R.smarts_list
     except Exception as e:           # the library raising on a template/substrate pair is "no reaction returned", not a violation of C03
         return {"_skip": "application-raised:" + type(e).__name__}
+    case = reactlib.result_case(R, mode)       # projection: an exception here is a harness error and is reported as one
     if not case["results"]:
         return {"_skip": "no-result"}
     return case
@@ -72,10 +73,16 @@ def textbook_inputs():
                     for render in (False,):
                         out.append({"template": t["rsmi"], "substrate": sub, "invert": False, "centre": centre, "strategy": strategy,
                                     "kind": "textbook:" + t["name"], "render_h": render})
+                        if "explicit" in t["name"]:
+                            out.append({"template": t["rsmi"], "substrate": sub, "invert": False, "centre": centre, "strategy": strategy,
+                                        "kind": "textbook:" + t["name"], "implicit_temp_on_explicit": True})
         for strategy in ("all", "comp"):
             for render in (False,):
                 out.append({"template": t["rsmi"], "substrate": reactlib.unmapped_side(p), "invert": True, "centre": True, "strategy": strategy,
                             "kind": "textbook-backward:" + t["name"], "render_h": render})
+                if "explicit" in t["name"]:
+                    out.append({"template": t["rsmi"], "substrate": reactlib.unmapped_side(p), "invert": True, "centre": True, "strategy": strategy,
+                                "kind": "textbook-backward:" + t["name"], "implicit_temp_on_explicit": True})
     return out
 
 
